@@ -48,6 +48,9 @@ func ZipToTar(r *os.File, w io.Writer) error {
 	if err != nil {
 		return err
 	}
+	if dirLoc < 0 || dirLoc > size {
+		return errors.New("zip central directory is outside the file")
+	}
 	tw := tar.NewWriter(w)
 	if err := tarAddStream(tw, io.NewSectionReader(r, dirLoc, size-dirLoc), TarMemberCD, size-dirLoc); err != nil {
 		return err
@@ -61,7 +64,8 @@ func ZipToTar(r *os.File, w io.Writer) error {
 func tarAddStream(tw *tar.Writer, r io.Reader, name string, size int64) error {
 	hdr := &tar.Header{Name: name, Mode: 0644, Size: size}
 	if err := tw.WriteHeader(hdr); err != nil {
-		return err
+		// archive/tar's header errors are not comparable values, which net/http cannot take from a request body
+		return fmt.Errorf("writing tar header: %w", err)
 	}
 	if _, err := io.CopyN(tw, r, size); err != nil {
 		return err
